@@ -67,4 +67,79 @@ theorem wsRead_fr_spec (mode : Mode) (accept : Bytes) (X : Bytes) (st : St) (av 
   · rw [wsRead_up mode accept st av h.1]
     exact readFrame_data_spec mode X _ st av p h
 
+/-! ### one `coap_read_session` call -/
+
+/-- what a `coap_read_session` call may do in the frame phase, relative to S -/
+def SessFr (mode : Mode) (X : Bytes) (c : Prop) (p av : Bytes) : List Msg × Sess × Bytes → Prop
+  | (ms, .open st', av') =>
+      (∃ p', WsInv mode st' (.fr p') ∧ frOf mode (p ++ (av ++ X)) =
+        (ms ++ (frOf mode (p' ++ (av' ++ X))).1, (frOf mode (p' ++ (av' ++ X))).2)) ∧ Prog c av av'
+  | (ms, .closed, _) => frOf mode (p ++ (av ++ X)) = (ms, true)
+  | (_, .oob, _) => False
+
+/-- from the first `coap_ws_read` of a call to the whole call; `ihrec` = the statement for the remaining rounds -/
+theorem readSession_of_post (mode : Mode) (accept : Bytes) (X : Bytes) (fuel : Nat)
+    (ihrec : ∀ (st : St) (av p : Bytes), FrPre st p → p.length ≤ fsCap → p.length + av.length < fuel →
+      SessFr mode X (p.length < fsCap) p av (readSession mode accept fuel st av))
+    (st : St) (av p av0 : Bytes) (c : Prop)
+    (hpost : FrPost mode X c p av0 (wsRead mode accept rxBuf st av)) (hfuel : min p.length fsCap + av0.length ≤ fuel + 2) :
+    SessFr mode X c p av0 (readSession mode accept (fuel + 1) st av) := by
+  rw [readSession]
+  generalize wsRead mode accept rxBuf st av = res at hpost
+  obtain ⟨ret, st', av'⟩ := res
+  cases ret with
+  | err => exact hpost.elim
+  | oob => exact hpost.elim
+  | closed => simp only [FrPost] at hpost; simp only [SessFr]; exact hpost
+  | zero =>
+    simp only [FrPost] at hpost
+    simp only [SessFr]
+    obtain ⟨⟨p', hi, hf⟩, hp⟩ := hpost
+    exact ⟨⟨p', hi, by rw [hf]; simp⟩, hp⟩
+  | pkt pl =>
+    simp only [FrPost] at hpost
+    obtain ⟨hpre, hle, hmeas, hf, hp1, hp2⟩ := hpost
+    simp only [parse_ws_eq]
+    by_cases hrd : st'.rdHeader.length > 0
+    · rw [if_pos hrd]
+      have hr := ihrec st' av' st'.rdHeader hpre hle (by omega)
+      generalize readSession mode accept fuel st' av' = r at hr
+      obtain ⟨ms2, sess, av''⟩ := r
+      cases sess with
+      | oob => exact hr.elim
+      | closed =>
+        simp only [SessFr] at hr ⊢
+        rw [hf, hr, deliver_nil_append]
+      | «open» st'' =>
+        simp only [SessFr] at hr ⊢
+        obtain ⟨⟨p', hi, hf2⟩, hq1, _⟩ := hr
+        refine ⟨⟨p', hi, ?_⟩, by omega, fun hc hne => by have := hp2 hc hne; omega⟩
+        rw [hf, hf2, deliver_nil_append, List.append_assoc]
+    · rw [if_neg hrd]
+      have hnil : st'.rdHeader = [] := List.length_eq_zero_iff.mp (by omega)
+      simp only [SessFr]
+      refine ⟨⟨[], Or.inl ⟨by rw [← hnil]; exact hpre, trivial⟩, ?_⟩, hp1, hp2⟩
+      rw [hf, hnil, deliver_nil_append]
+
+/-- a whole call from a state between frames / inside a frame header -/
+theorem readSession_fr (mode : Mode) (accept : Bytes) (X : Bytes) : ∀ (fuel : Nat) (st : St) (av p : Bytes),
+    FrPre st p → p.length ≤ fsCap → p.length + av.length < fuel →
+    SessFr mode X (p.length < fsCap) p av (readSession mode accept fuel st av) := by
+  intro fuel
+  induction fuel with
+  | zero => intro st av p _ _ h; omega
+  | succ fuel ih =>
+    intro st av p hpre hle hfuel
+    have hpost : FrPost mode X (p.length < fsCap) p av (wsRead mode accept rxBuf st av) := by
+      rw [wsRead_up mode accept st av hpre.1]
+      exact readFrame_spec mode X _ st av p hpre hle (by omega)
+    exact readSession_of_post mode accept X fuel ih st av p av _ hpost (by omega)
+
+/-- a whole call from any state that satisfies the invariant, frame phase -/
+theorem readSession_fr_inv (mode : Mode) (accept : Bytes) (X : Bytes) (fuel : Nat) (st : St) (av p : Bytes)
+    (h : WsInv mode st (.fr p)) (hfuel : av.length + fsCap ≤ fuel) :
+    SessFr mode X True p av (readSession mode accept (fuel + 1) st av) := by
+  have hpost := wsRead_fr_spec mode accept X st av p h
+  exact readSession_of_post mode accept X fuel (readSession_fr mode accept X fuel) st av p av True hpost (by omega)
+
 end Coap
